@@ -22,7 +22,7 @@ SPECIAL_EPOCHS = [
 ]
 BASE_HOST = {"epoch_ns": 1_700_000_000 * 10**9, "tick_ns": 1_000_000, "jumps": [], "TZ": "UTC", "LANG": "C.UTF-8", "LC_ALL": None,
              "LANGUAGE": None, "LOG_LEVEL": None, "profiler": False, "hashseed": 0, "aslr": False, "random_seed": 0,
-             "user": None, "hostname": None, "columns": None, "umask": None, "sched_seed": 0, "tty": False}
+             "user": None, "hostname": None, "columns": None, "umask": None, "sched_seed": 0, "tty": False, "extra_env": None}
 
 
 def case_seed(master, prop, index):
@@ -79,6 +79,20 @@ def gen_host(rng, swarm=None):
     return h
 
 
+KNOWN_ENV = {"LOG_LEVEL", "RP2_ENABLE_PROFILER", "CURRENCY_CODE", "LONG_TERM_CAPITAL_GAINS", "HOME", "TMPDIR", "PATH", "TZ", "LANG", "LC_ALL", "LANGUAGE"}
+
+
+def gen_extra_env(rng, country_facts):
+    """Values for every environment variable the tree under test reads that the simulator does not already own (discovered by
+    tree.env_vars): switches, levels and directories inside the simulated world."""
+    env = {}
+    for name in country_facts.get("env_vars", []):
+        if name in KNOWN_ENV or rng.random() < 0.4:
+            continue
+        env[name] = rng.choice(["1", "true", "yes", "debug", "0", "$HOME/rp2 data", "$CWD/trace", "$TMP/x", "http://127.0.0.1:9/"])
+    return env or None
+
+
 def _dates_of(world, asset=None):
     return sorted({W.parse_ts(r["timestamp"]).date() for _, _, r in W.all_rows(world, asset)})
 
@@ -132,7 +146,9 @@ def gen_methods(rng, world, facts, allow_schedule=True):
     if k < 0.7 or not allow_schedule:
         return rng.choice(methods), None
     years = W.local_years(world)
-    first = (years[0] if years else 2015) - rng.choice([1, 1, 2, 5, 40])
+    first = (years[0] if years else 2015) - rng.choice([0, 0, 1, 1, 2, 5, 40])  # may start in the very year of the first transaction
+    if world.get("new_year_start") and years and rng.random() < 0.7:
+        first = years[0]
     first = max(first, 1970)
     n = rng.choice([1, 1, 2, 3, 4])
     ys = [first]
